@@ -71,7 +71,7 @@ def lean_ty(t):
             return "(" + " → ".join([lean_ty(a) for a in t[1]] + [res]) + ")"
     return {"int": "Int", "bool": "Bool", "str": "Str", "bytes": "(List Nat)", "row": "Row", "frag": "Fragment", "gap": "Gap",
             "ovres": "OverlapResult", "scaffold": "Scaffold", "bytesio": "PyRt.BytesIO", "unit": "Unit", "sink_str": "Str",
-            "sink_bytes": "(List Nat)", "nat": "Nat", "trtable": "(Char → Char)", "fastainfo": "FastaInfo", "ovref": "Nat", "premise": "Premise", "store": "(List Res)", "scref": "Nat", "ffref": "Nat", "found": "Found", "namer": "PyRt.SrcNamer", "lref": "Nat", "junction": "Junction", "assembly": "Assembly", "path": "Str"}[t]
+            "sink_bytes": "(List Nat)", "nat": "Nat", "trtable": "(Char → Char)", "fastainfo": "FastaInfo", "ovref": "Nat", "premise": "Premise", "store": "(List Res)", "scref": "Nat", "ffref": "Nat", "found": "Found", "namer": "PyRt.SrcNamer", "lref": "Nat", "junction": "Junction", "assembly": "Assembly", "path": "Str", "fh": "Str"}[t]
 
 
 # OBJECT TABLE: (type, python attribute) -> (result type, lean template, may raise)
@@ -162,6 +162,7 @@ REGEX = {r"\s*$": ("(isBlankLine {0})", "bool", "match"),
          r"(.+):(\d+)-(\d+)$": ("(tpfNameMatch {0})", O(("match", 3)), "match"),
          r"([A-Z]\d*|[IVX_]+|\d+[A-Z]+)": ("(isChrNameTag {0})", "bool", "fullmatch"),
          r"^([^_]+)_.+_\d+$": ("(hapPrefixOfName {0})", O(("match", 1)), "search")}
+ERR_CATCH = {"FileExistsError": "fileExists"}
 ERR = {"TaggingError": "tagging", "ValueError": "value", "IndexError": "index", "KeyError": "key", "TypeError": "type", "NotImplementedError": "notImpl"}
 RESERVED = {"end", "from", "at", "in", "do", "then", "else", "if", "let", "have", "show", "fun", "match", "with", "where", "by", "open",
             "section", "namespace", "def", "theorem", "instance", "structure", "class", "deriving", "import", "max", "min", "new", "this", "rows"}
@@ -188,6 +189,8 @@ def exits(stmts):
 def always_exits(stmts):
     for s in stmts:
         if isinstance(s, (ast.Return, ast.Break, ast.Continue, ast.Raise)):
+            return True
+        if isinstance(s, ast.Expr) and isinstance(s.value, ast.Call) and dotted(s.value.func) == "sys.exit":
             return True
         if isinstance(s, ast.If) and s.orelse and always_exits(s.body) and always_exits(s.orelse):
             return True
@@ -1209,6 +1212,14 @@ class Kernel:
                 if td != tb[2]:
                     raise Unsupported("dict default type")
                 return f"((dGet? {b} {k}).getD {d})", tb[2]
+            if tb == "path" and m == "open" and len(e.args) == 1:
+                md, tm = self.expr(e.args[0], env, binds)
+                if tm != "str":
+                    raise Unsupported("open() mode")
+                self.param("fs_open", ("fun", ["path", "str"], "fh", True))
+                nm = self.fresh()
+                binds.append((nm, f"(fs_open {b} {md})", "fh"))
+                return nm, "fh"
             if tb == "path" and m == "exists" and not e.args:
                 self.param("fs_exists", ("fun", ["path"], "bool", False))
                 return f"(fs_exists {b})", "bool"
@@ -1314,6 +1325,25 @@ class Kernel:
             return self.block(rest, env, loop)
         if isinstance(s, (ast.Pass, ast.Nonlocal)):
             return self.block(rest, env, loop)
+        if isinstance(s, ast.Try) and len(s.body) == 1 and isinstance(s.body[0], ast.Assign) and len(s.handlers) == 1 and not s.orelse and not s.finalbody \
+                and isinstance(s.handlers[0].type, ast.Name) and s.handlers[0].type.id in ERR_CATCH and s.handlers[0].name is None \
+                and len(s.body[0].targets) == 1 and isinstance(s.body[0].targets[0], ast.Name):
+            # try: x = <expr that may raise E>  except E: <handler that always exits>
+            if not always_exits(s.handlers[0].body):
+                raise Unsupported("except-handler that falls through")
+            binds = []
+            t, ty = self.impure(s.body[0].value, env)
+            x = s.body[0].targets[0].id
+            env2 = dict(env)
+            env2[x] = ty
+            handler = self.block(list(s.handlers[0].body), env, loop)
+            cont = self.block(rest, env2, loop)
+            return [f"match {t} with", f"| .error .{ERR_CATCH[s.handlers[0].type.id]} =>"] + ind(handler) + ["| .error e =>", "  .error e", f"| .ok ({mg(x)} : {lean_ty(ty)}) =>"] + ind(cont)
+        if isinstance(s, ast.Expr) and isinstance(s.value, ast.Call) and dotted(s.value.func) == "sys.exit" and len(s.value.args) == 1 \
+                and isinstance(s.value.args[0], ast.Constant) and s.value.args[0].value == 1:
+            return [".error .other"]                 # SystemExit(1): the process ends with status 1 (no exception class of the model: `Err.other`)
+        if isinstance(s, ast.Expr) and isinstance(s.value, ast.Call) and dotted(s.value.func) == "click.echo":
+            return self.block(rest, env, loop)        # a message for the user: not modelled (like logging)
         if isinstance(s, ast.FunctionDef) and s.name in self.spec.get("inline_closures", []):
             return self.block(rest, env, loop)        # a local helper: its body is inlined at every call (see `inline_closures`)
         if isinstance(s, ast.With) and len(s.items) == 1 and isinstance(s.items[0].optional_vars, ast.Name) \
@@ -2331,7 +2361,7 @@ def translate(spec):
     rty = "Unit" if not parts else " × ".join(parts)
     sink_inits = [f"  let {mg(n)} : {lean_ty(t)} := {'0' if t == 'int' else '[]'}" for n, t in k.roots if t in ("sink_str", "sink_bytes") or n == "yielded_" or n == "heap_sc" or n in ("heap_lo", "added_lo") or n in spec.get("extra_roots", {}) or n in [p.replace(".", "_") for p in spec.get("init_empty", [])]]
     # parameter order = the order of the kernel's declaration (params, attr_params, opaque, then newOid): independent of the order of use
-    order = ["fs_exists", "fs_mtime", "store", "nextOid", "heap_ff"] + [p.replace(".", "_") for p in spec.get("dict_roots", {})] + [mg(n) for n in spec.get("params", {})] + [p.replace(".", "_") for p in spec.get("attr_params", {})] \
+    order = ["fs_exists", "fs_mtime", "fs_open", "store", "nextOid", "heap_ff"] + [p.replace(".", "_") for p in spec.get("dict_roots", {})] + [mg(n) for n in spec.get("params", {})] + [p.replace(".", "_") for p in spec.get("attr_params", {})] \
         + [p.replace(".", "_") for p in spec.get("opaque", {})] + ["newOid"]
     k.params.sort(key=lambda nt: order.index(nt[0]) if nt[0] in order else len(order))
     params = ("(fuel : Nat) " if k.uses_fuel else "") + " ".join(f"({n} : {lean_ty(t)})" for n, t in k.params)
@@ -2520,6 +2550,11 @@ IMP_KERNELS_15 = [
          attr_params={"self.fasta_file": "path", "self.fai_file": "path", "self.agp_file": "path"}),
 ]
 
+IMP_KERNELS_16 = [
+    dict(file=CLI, qual="get_output_filehandle", lean="get_output_filehandle_imp", returns="fh",
+         params={"path": "path", "clobber": "bool", "mode": "str"}),
+]
+
 IMP_KERNELS = [
     dict(file="assembly/indexed_assembly.py", qual="IndexedAssembly.find_overlaps", lean="IndexedAssembly_find_overlaps",
          params={"bait": "frag"}, returns=O("ovres"), locals={"ovr": O("int")},
@@ -2551,7 +2586,7 @@ IMP_KERNELS = [
 def main():
     parts = ["/- GENERATED by harness/translate_imp.py from /repo/src — do not edit -/", "import AgpTpf.Model.PyRt", "import AgpTpf.Model.PyRtHeap", "import AgpTpf.Model.Lookup",
              "import AgpTpf.Model.Fasta", "import AgpTpf.Model.Text", "set_option linter.unusedVariables false", "namespace AgpTpf.Gen.Imp", "open AgpTpf", ""]
-    for spec in IMP_KERNELS + IMP_KERNELS_2 + IMP_KERNELS_3 + IMP_KERNELS_4 + IMP_KERNELS_5 + IMP_KERNELS_6 + IMP_KERNELS_7 + IMP_KERNELS_8 + IMP_KERNELS_9 + IMP_KERNELS_10 + IMP_KERNELS_11 + IMP_KERNELS_12 + IMP_KERNELS_13 + IMP_KERNELS_14 + IMP_KERNELS_15:
+    for spec in IMP_KERNELS + IMP_KERNELS_2 + IMP_KERNELS_3 + IMP_KERNELS_4 + IMP_KERNELS_5 + IMP_KERNELS_6 + IMP_KERNELS_7 + IMP_KERNELS_8 + IMP_KERNELS_9 + IMP_KERNELS_10 + IMP_KERNELS_11 + IMP_KERNELS_12 + IMP_KERNELS_13 + IMP_KERNELS_14 + IMP_KERNELS_15 + IMP_KERNELS_16:
         parts.append(translate(spec))
     parts.append("end AgpTpf.Gen.Imp\n")
     txt = "\n".join(parts)
